@@ -130,9 +130,9 @@ Example hypotheses_decided_on_a_carrier :
   distinct_b Z.eqb [20; 0; 20]%Z = false.
 Proof. vm_compute. repeat split. Qed.
 
-(* a float parameter below a dict-valued attribute: with the path followers as they are the query raises
-   (finding float-inside-dict-raises); with proposed_fixes/C20-dict-attribute-paths it is interpolated.
-   One statement for both variants, decided by the flag regenerated from the source *)
+(* a float parameter below a dict-valued attribute: interpolated since /repo e3bcee5 (Props.C20_dict_code);
+   before, the query raised (finding float-inside-dict-raises, fixed).  One statement for both variants,
+   decided by the flag regenerated from the source *)
 Definition gd (t a : Z) : tree Z := TO [("t", TF t); ("g", TO [("params", TD [("a", TF a)])])].
 Example dict_parameter :
   interp_at Z.leb Z.eqb (fun z => z) left_value TF true [gd 0 100; gd 10 150; gd 20 200] ["t"] (TF 15%Z) =
